@@ -45,10 +45,7 @@ var props = []*common.Prop{
 		Gen:    func(r *simrt.Rand, tier string, idx int) interface{} { return genValCase(r, tier, idx) },
 		Run:    runVal,
 		Shrink: shrinkVal},
-	{ID: "C15", New: func() interface{} { return &LimCase{} },
-		Gen:    func(r *simrt.Rand, tier string, idx int) interface{} { return genLimCase(r, tier) },
-		Run:    runLim,
-		Shrink: shrinkLim},
+	LimProp(),
 	{ID: "C09", New: func() interface{} { return &RespCase{} },
 		Gen:    func(r *simrt.Rand, tier string, idx int) interface{} { return genRespCase(r, tier, idx%4 == 3) },
 		Run:    func(t *testing.T, c interface{}, trace bool) *common.Outcome { return runResp(t, c, trace, "C09") },
